@@ -236,7 +236,9 @@ func retryFailed(w *World, obls []*Obligation, dir string, timeout int, all bool
 			again = append(again, o)
 		}
 	}
-	if len(again) == 0 || len(again) > 40 {
+	if len(again) == 0 || len(again) > 40 || os.Getenv("SPOKVC_SELFTEST") != "" {
+		// SPOKVC_SELFTEST: the must-fail corpus only asks whether an obligation fails; the retry
+		// and the witness search (minutes per seeded change) are skipped there
 		return
 	}
 	sem := make(chan struct{}, par)
